@@ -413,6 +413,9 @@ func (c *Client) BlockResults(ctx context.Context, height *int64) (*ctypes.Resul
 	if res.Height <= 0 {
 		return nil, errNegOrZeroHeight
 	}
+	if res.Height != h {
+		return nil, fmt.Errorf("results are for height %d, asked for height %d", res.Height, h)
+	}
 
 	// Update the light client if we're behind.
 	nextHeight := h + 1
